@@ -96,9 +96,9 @@ theorem loops_release_before_close :
     (skel_start.filter (· == "go")).length = 2 ∧
     (skel_start.filter (· == "call:g.wg.Add")).length = 2 ∧
     (skel_start.filter (· == "call:g.wg.Done")).length = 2 ∧
-    ((skel_start.drop (skel_start.idxOf "go")).take 6) =
-      ["go", "call:(func() literal)", "defer", "call:(func() literal)", "call:g.wg.Done", "if"] ∧
-    ((skel_start.drop (skel_start.idxOf "call:g.receivePacketsForever")).dropWhile (· != "go")).take 6 =
-      ["go", "call:(func() literal)", "defer", "call:(func() literal)", "call:g.wg.Done", "if"] := by decide
+    ((skel_start.drop (skel_start.idxOf "go")).take 4) =
+      ["go", "defer", "call:g.wg.Done", "if"] ∧
+    ((skel_start.drop (skel_start.idxOf "call:g.receivePacketsForever")).dropWhile (· != "go")).take 4 =
+      ["go", "defer", "call:g.wg.Done", "if"] := by decide
 
 end Lnc.Inst.C12
